@@ -50,23 +50,18 @@ LOKI_TIME_LIMIT = 20
 
 # ---- listed known findings: trigger switched off in the generator ---------------------------------------------
 # (flag forced off for every program, reason counted with ctx.exclude when the drawn spec had it on)
+# (the flags of repaired defects were removed: one-line-if, dead-code-elseif, zero-bound-section, assumed-shape-caller-lb,
+# uncalled-member, array-dummy-case - /repo cd5da15 .. f69c637)
 EXCLUDE_FLAGS = [
     ('callee_return', 'known:callee-return (RETURN of an inlined subroutine is copied into the caller)'),
-    ('fn_in_if1', 'known:one-line-if (function inlined into the statement of a one-line IF)'),
-    ('site_if1_call', 'known:one-line-if (subroutine inlined into the statement of a one-line IF)'),
     ('clash_actual', 'known:actual-mentions-dummy-name (actual argument mentions a caller variable named like a callee dummy)'),
-    ('const_elseif', 'known:dead-code-elseif (remove_dead_code on ELSE IF with constant condition)'),
     ('act_stride', 'known:stride-dropped (stride of a section actual is dropped)'),
     ('callee_stride', 'known:stride-dropped (stride of a section of the dummy inside the callee is dropped)'),
     ('act_larger', 'known:larger-actual (whole array larger than the explicit-shape dummy)'),
     ('lb_inquiry', 'known:bounds-inquiry (LBOUND/UBOUND of an array dummy with lower bound /= 1)'),
     ('fn_in_while', 'known:function-in-while (function inlined out of a DO WHILE condition)'),
-    ('act_lower_zero', 'known:zero-bound-section (section actual with lower bound 0)'),
-    ('callee_zero_bound', 'known:zero-bound-section (section of the dummy inside the callee with a bound 0)'),
-    ('assumed_caller_lb', 'known:assumed-shape-caller-lb (assumed-shape dummy, caller array with lower bound /= 1)'),
     ('act_muldiv', 'known:multiplicative-actual (product / quotient actual substituted next to * or /)'),
     ('member_uses_param', 'known:constants-member-use (inlined PARAMETER still referenced by an internal procedure)'),
-    ('int_uncalled', 'known:uncalled-member (declarations of a never-called internal subroutine are hoisted)'),
 ]
 
 
@@ -78,8 +73,6 @@ def inlines_subs(ep, o):
 SKIP_VARIANT = [
     ('absent-optional', lambda ep, o, ft: 'opt_absent' in ft and inlines_subs(ep, o) and not (ep == 'trafo' and o.get('remove_dead_code')),
      'known:absent-optional (omitted OPTIONAL dummy stays referenced in the inlined dead branch)'),
-    ('array-dummy-case', lambda ep, o, ft: 'mixed_case' in ft and inlines_subs(ep, o),
-     'known:array-dummy-case (array dummy spelled in another letter case than its declaration)'),
 ]
 # documented preconditions (outside the domain, counted as class only)
 OUTSIDE_DOMAIN = [
